@@ -347,6 +347,20 @@ def reader_rules(m: Bf3Model, chk, pid, want=None):
             gs = dominating(gs, stores)
             ok = bool(gs)
             where = gs[0].where if gs else stores[0].where
+            if not ok:
+                # the same test spelled with the lookup itself:  try: d[k]  except KeyError: d[k] = v  else: raise
+                # (the store happens exactly when the lookup of the very key in the very dictionary fails; a successful lookup raises the format error)
+                st_ = stores[0]
+                exf = [f for f in st_.ctx if f[0] == "except" and "KeyError" in f[3]]
+                if exf:
+                    tid_ = exf[-1][1]
+                    in_try = [e for e in ev if any(f[0] == "try" and f[1] == tid_ for f in e.ctx) and e.kind in ("subscript", "call", "mcall", "dyncall", "setitem", "raise")]
+                    lookups = [e for e in in_try if e.kind == "subscript" and unsnap(e.d["base"]) is d and _is_int_of(tid, e.d["index"])]
+                    in_else = [e for e in ev if e.kind == "raise" and any(f[0] == "tryelse" and f[1] == tid_ for f in e.ctx)]
+                    else_cond = [f for e in in_else for f in e.ctx if f[0] == "if" and e.ctx.index(f) > [g_[0:2] for g_ in e.ctx].index(("tryelse", tid_))]
+                    if len(in_try) == 1 and len(lookups) == 1 and len(in_else) == 1 and not else_cond and "FormatError" in str(in_else[0].d.get("exc")):
+                        ok = True
+                        where = lookups[0].where
             tv = rb.field("tag_value")
             if ok and not _is_bytes_of(tv, stores[0].d["value"]):
                 ok = False
@@ -801,7 +815,8 @@ def envelope_writer_rules(m: Bf3Model, chk, pid):
     fi = prog.func(BF3 + ".Bf3File.write_file")
     ex = Exec(prog, policy=lambda e, f, d: False)
     res = ex.run(fi)
-    calls = [e for e in res.events if e.kind == "call" and e.d["callee"].name == "write_bf3_format"]
+    wfmt = prog.func(BF3 + ".Bf3File.write_bf3_format")  # (through the class: the method may be bound there to a module-level function)
+    calls = [e for e in res.events if e.kind == "call" and (e.d["callee"].name == "write_bf3_format" or e.d["callee"] is wfmt) and len(e.stack) == 1]
     where = "%s:%d" % (fi.file, fi.lineno)
     want_sig = bytes.fromhex(SPEC["bf3_signature_hex"])
     ok, why = False, "write_file does not call write_bf3_format exactly once"
